@@ -155,3 +155,159 @@ func H_HolesTwoFiles() {
 	first := "@lexer\nA = 'a'\nB = 'b'\n@mode M {\nD = 'd'\n}\n@parser\n@start s = A B\n"
 	vFrontEnd([]byte(first), vFill(vSecondFile[tpl], "h"))
 }
+
+// ---- C17: well-formedness verdict and diagnostic position ----
+
+// vTextSink keeps what the error logger prints.
+type vTextSink struct{ text string }
+
+func (s *vTextSink) Write(p []byte) (int, error) {
+	s.text += string(p)
+	return len(p), nil
+}
+
+// vRun runs ParseLox and returns the verdict and the diagnostics' lines.
+func vRun(files ...[]byte) (bool, string) {
+	dir := vrt.TempDir()
+	defer vrt.RemoveAll(dir)
+	for i, data := range files {
+		vrt.WriteFile(dir+"/"+vrt.Name("f", i)+".lox", data)
+	}
+	fset := gotoken.NewFileSet()
+	sink := &vTextSink{}
+	c := &context{Fset: fset, Errs: errlogger.New(fset, sink), Dir: dir}
+	ok := c.ParseLox()
+	return ok, sink.text
+}
+
+// vMentionsLine: some diagnostic is positioned at <file>:<line>:.
+func vMentionsLine(text string, file int, line int) bool {
+	want := vrt.Name("f", file) + ".lox:" + vrt.Name("", line) + ":"
+	for i := 0; i+len(want) <= len(text); i++ {
+		if text[i:i+len(want)] == want {
+			return true
+		}
+	}
+	return false
+}
+
+func vUpper(b byte) bool  { return vrt.And(b >= 'A', b <= 'Z') }
+func vDigit(b byte) bool  { return vrt.And(b >= '0', b <= '9') }
+func vLower(b byte) bool  { return vrt.And(b >= 'a', b <= 'z') }
+func vAlnum(b byte) bool  { return vrt.Or(vUpper(b), vrt.Or(vLower(b), vDigit(b))) }
+func vIs(b0, b1 byte, s string) bool {
+	return vrt.And(b0 == s[0], b1 == s[1])
+}
+
+// H_TokenName: a two-byte token name in the default mode / inside a mode /
+// in a second file. Accepted iff it obeys the documented naming rules and is
+// unique; a rejection names the line of the declaration.
+func H_TokenName() {
+	place := vrt.Param("place", 0)
+	b0, b1 := vrt.Byte("n0"), vrt.Byte("n1")
+	// keep the hole a single identifier-like token: letters, digits, underscore
+	vrt.Assume(vrt.Or(vAlnum(b0), b0 == '_'))
+	vrt.Assume(vrt.Or(vAlnum(b1), b1 == '_'))
+	name := string([]byte{b0, b1})
+	var ok bool
+	var text string
+	line := 0
+	switch place {
+	case 0:
+		ok, text = vRun([]byte("@lexer\nAB = 'a'\n" + name + " = 'x'\n@macro MC = 'm'\n@mode MD {\nCD = 'c'\n}\n@parser\n@start st = AB\n"))
+		line = 3
+	case 1:
+		ok, text = vRun([]byte("@lexer\nAB = 'a'\n@macro MC = 'm'\n@mode MD {\nCD = 'c'\n" + name + " = 'x'\n}\n@parser\n@start st = AB\n"))
+		line = 6
+	default:
+		ok, text = vRun([]byte("@lexer\nAB = 'a'\n@macro MC = 'm'\n@mode MD {\nCD = 'c'\n}\n@parser\n@start st = AB\n"), []byte("@lexer\n"+name+" = 'x'\n"))
+		line = 2
+	}
+	wellFormed := vrt.And(vUpper(b0), vrt.Or(vUpper(b1), vDigit(b1)))
+	// unique across tokens, macros, modes and rules; not reserved (EOF/ERROR have other lengths)
+	for _, other := range []string{"AB", "MC", "MD", "CD", "st"} {
+		wellFormed = vrt.And(wellFormed, vrt.Not(vIs(b0, b1, other)))
+	}
+	vrt.Assert(vrt.Iff(ok, wellFormed), "accepted-iff-well-formed")
+	if !ok {
+		vrt.Reach("rejected")
+		file := 0
+		if place >= 2 {
+			file = 1
+		}
+		vrt.Assert(vMentionsLine(text, file, line), "diagnostic-at-the-declaration")
+	} else {
+		vrt.Reach("accepted")
+	}
+}
+
+// H_ClassRange: [lo-hi] with lo, hi arbitrary letters or digits: accepted iff
+// lo <= hi; a rejection names the declaration's line.
+func H_ClassRange() {
+	place := vrt.Param("place", 0)
+	lo, hi := vrt.Byte("lo"), vrt.Byte("hi")
+	vrt.Assume(vAlnum(lo))
+	vrt.Assume(vAlnum(hi))
+	cls := "[" + string([]byte{lo}) + "-" + string([]byte{hi}) + "]"
+	var ok bool
+	var text string
+	line := 0
+	switch place {
+	case 0:
+		ok, text = vRun([]byte("@lexer\nAB = 'a'\nCL = " + cls + "+ 'x'\n@parser\n@start st = AB\n"))
+		line = 3
+	case 1:
+		ok, text = vRun([]byte("@lexer\nAB = 'a'\n@macro MC = " + cls + "\nCL = MC 'x'\n@parser\n@start st = AB\n"))
+		line = 3
+	default:
+		ok, text = vRun([]byte("@lexer\nAB = 'a'\n@mode MD {\nCL = ~" + cls + " - [q]\n}\n@parser\n@start st = AB\n"))
+		line = 4
+	}
+	vrt.Assert(vrt.Iff(ok, lo <= hi), "accepted-iff-lower-not-above-upper")
+	if !ok {
+		vrt.Reach("rejected")
+		vrt.Assert(vMentionsLine(text, 0, line), "diagnostic-at-the-declaration")
+	} else {
+		vrt.Reach("accepted")
+	}
+}
+
+// H_Reference: a two-byte name in a referencing position: accepted iff it
+// names something of the right kind.
+func H_Reference() {
+	place := vrt.Param("place", 0)
+	b0, b1 := vrt.Byte("n0"), vrt.Byte("n1")
+	vrt.Assume(vrt.Or(vAlnum(b0), b0 == '_'))
+	vrt.Assume(vrt.Or(vAlnum(b1), b1 == '_'))
+	name := string([]byte{b0, b1})
+	base := "@lexer\nAB = 'a'\n@external EX\n@macro MC = 'm'\n@mode MD {\nCD = 'c' @pop_mode\n}\n"
+	var ok bool
+	var text string
+	var valid bool
+	line := 0
+	switch place {
+	case 0: // @emit(name): a token
+		ok, text = vRun([]byte(base + "@frag 'q' @emit(" + name + ")\n@parser\n@start st = AB\n"))
+		valid = vrt.Or(vIs(b0, b1, "AB"), vIs(b0, b1, "CD"))
+		line = 8
+	case 1: // @push_mode(name): a mode
+		ok, text = vRun([]byte(base + "PM = 'p' @push_mode(" + name + ")\n@parser\n@start st = AB\n"))
+		valid = vIs(b0, b1, "MD")
+		line = 8
+	case 2: // macro reference in a lexer expression
+		ok, text = vRun([]byte(base + "RF = 'r' " + name + "\n@parser\n@start st = AB\n"))
+		valid = vIs(b0, b1, "MC")
+		line = 8
+	default: // term of a parser production: a token (also an @external one) or a rule
+		ok, text = vRun([]byte(base + "@parser\n@start st = AB " + name + "\nru = AB\n"))
+		valid = vrt.Or(vIs(b0, b1, "AB"), vrt.Or(vIs(b0, b1, "CD"), vrt.Or(vIs(b0, b1, "EX"), vrt.Or(vIs(b0, b1, "ru"), vIs(b0, b1, "st")))))
+		line = 9
+	}
+	vrt.Assert(vrt.Iff(ok, valid), "accepted-iff-reference-defined")
+	if !ok {
+		vrt.Reach("rejected")
+		vrt.Assert(vMentionsLine(text, 0, line), "diagnostic-at-the-reference")
+	} else {
+		vrt.Reach("accepted")
+	}
+}
